@@ -302,10 +302,14 @@ func keyReaderSpecFrom(sqlPrefix []byte, table *Table, scanSpecs *ScanSpecs) (sp
 				hiKeyReady = true
 			} else {
 				encVal, _, err := EncodeValueAsKey(colRange.hRange.val, col.colType, col.MaxLen())
-				if err != nil {
+				if errors.Is(err, ErrMaxLengthExceeded) {
+					// a bound longer than the column cannot be a key: leave this side open, the row filter decides
+					hiKeyReady = true
+				} else if err != nil {
 					return nil, err
+				} else {
+					hiKey = append(hiKey, encVal...)
 				}
-				hiKey = append(hiKey, encVal...)
 			}
 		}
 
@@ -314,10 +318,13 @@ func keyReaderSpecFrom(sqlPrefix []byte, table *Table, scanSpecs *ScanSpecs) (sp
 				loKeyReady = true
 			} else {
 				encVal, _, err := EncodeValueAsKey(colRange.lRange.val, col.colType, col.MaxLen())
-				if err != nil {
+				if errors.Is(err, ErrMaxLengthExceeded) {
+					loKeyReady = true
+				} else if err != nil {
 					return nil, err
+				} else {
+					loKey = append(loKey, encVal...)
 				}
-				loKey = append(loKey, encVal...)
 			}
 		}
 	}
